@@ -3,7 +3,8 @@ Mirror model of `/repo/src/csr.rs` (`Csr<N, E, Ty, Ix>`), core Lean only.
 
 * the four vectors `column`, `edges`, `row`, `node_weights` are lists, `edge_count` a `Nat`;
   `Ty` is the field `directed`, the index type `Ix` is `modulus` (`2^w` for `u8/u16/u32`, `0` for
-  `usize` = no wrap; `Ix::new(i)` = `mkIx modulus i`), `BINARY_SEARCH_CUTOFF` is the field `cutoff`
+  `usize` = no wrap; `Ix::new(i)` = `mkIx modulus i`, the capacity check of `add_node` = `fitsIx modulus i`),
+  `BINARY_SEARCH_CUTOFF` is the field `cutoff`
   (every theorem quantifies over it), `debug` says whether `debug_assert!` is compiled in.
 * node weights are `i32`, edge weights `i32` in the harness: `Int` here.
 * everything in `csr.rs` is safe Rust, so a failing index / slice / `Vec::insert` is a *panic*:
@@ -145,12 +146,19 @@ def addEdge (s : State) (a b : Nat) (w : Int) : Option (State × Bool) :=
   | some (s', .ok r) => some (s', r)
   | _ => none
 
-/-- `add_node(weight)` -/
+/-- `i <= <Ix as IndexType>::max().index()`: the index `i` fits the index type (`modulus = 0` is `usize`:
+every index fits) -/
+def fitsIx (modulus i : Nat) : Bool := modulus == 0 || decide (i < modulus)
+
+/-- `add_node(weight)`.  Since commit 8cab180 (repair of finding D31) the code asserts
+`i <= Ix::max().index()` BEFORE the first write: a `Csr` that already holds as many nodes as the index type
+has values (256 for `u8`) panics and is left unchanged, instead of returning the wrapped index `Ix::new(i)`. -/
 def addNode (s : State) (w : Int) : Option (State × Nat) :=
   if s.row.length = 0 then none
   else
     let i := s.row.length - 1
-    if i ≤ s.nodeWeights.length then
+    if !fitsIx s.modulus i then none
+    else if i ≤ s.nodeWeights.length then
       some ({ s with row := s.row.insertIdx i s.column.length,
                      nodeWeights := s.nodeWeights.insertIdx i w }, mkIx s.modulus i)
     else none
